@@ -62,9 +62,13 @@ inline void thread_local_lemma() {
   a1.Clear();
   a1.Initialize(z);
   vt_check(a2.Get() == z && b1.Get() == z && c1.Get() == c, "after Clear the next initialisation wins");
+  a2.Initialize(y);  // no Clear in between: the slot is already initialised
+  vt_check(a2.Get() == z && a1.Get() == z, "Initialize on an initialised slot does not replace the value (the first initialisation wins until Clear)");
   b1.Clear();
   b1.Initialize(x);
   vt_check(b1.Get() == x && a2.Get() == z, "Clear in one slot is not observable in another");
+  b1.Initialize(y);
+  vt_check(b1.Get() == x, "a second Initialize after Clear + Initialize does not replace the value either");
   vt_cover(x != y && y != z, "distinct values reached");
 }
 }  // namespace vt
